@@ -11,6 +11,8 @@ Oracle: the scope model of mc/model/refeval.py (values, errors, host names after
 EVERY eval, normal or exceptional: the scope stack of that eval is back to [builtins, host names];
 the builtin table is the same object with the same keys bound to the same objects.
 """
+import sys
+
 from ..core import runner, snapshot, opwrap
 from ..model import refparse, refeval as M
 from .c07 import canon_real, canon_model
@@ -33,9 +35,10 @@ STATEMENTS = [
     'apply(y => swallow(r, y), 2); len', 'f = 0', 'del_probe = [len]',
     'w2 = n => 1 if n < 2 else w2(n - 1) * n', 'w2(4)', 'mk = len => (y => len + y)', 'add = mk(1)', 'add(5)', 'mk(2)(3)' if False else 'map([1, 2], mk(3))',
     'fib = len => len if len < 2 else fib(len - 1) + fib(len - 2)', 'fib(5)', 'map([3], fib)',
+    'deep = len => 0 if len < 1 else deep(len - 1) + 1', 'swallow(deep, 200); len', 'swallow_all(deep, 260); len("ab")', 'deep(160); y = 1', 'swallow_all(deep, 900); len',
     'f(None)', 'len = None', 'h(None)', 'map([None, 3], f)', 'f(0)', 'f(False)', 'f("")', 'len = 0', 'g = None', 'b3(None)',
 ]
-DEEP = ['w2(4)', 'add(5)', 'fib(5)', 'len', 'len("ab")', 'len = 5', 'len += 1', 'f(1)', 'g(0)', 'h(3)', 'b1(0)', 'b2(0)', 'b3(5)', 'swallow(r, 1); len',
+DEEP = ['swallow(deep, 200); len', 'swallow_all(deep, 260); len("ab")', 'swallow_all(deep, 900); len', 'w2(4)', 'add(5)', 'fib(5)', 'len', 'len("ab")', 'len = 5', 'len += 1', 'f(1)', 'g(0)', 'h(3)', 'b1(0)', 'b2(0)', 'b3(5)', 'swallow(r, 1); len',
         'swallow_all(r2, 1); len("abc")', 'map([1], g)', 'y']
 
 AST_BODIES = {
@@ -202,7 +205,7 @@ def run_sequence(res, hist, with_host_len, mode):
         w = Watch()
         try:
             with opwrap.traced(w):
-                rv = parser().eval(prog, None if no_names else rnames, ast_names=ast_names_real(), max_ops_evaluated=5000)
+                rv = parser().eval(prog, None if no_names else rnames, ast_names=ast_names_real(), max_ops_evaluated=20000)
             rout = ('val', canon_real(rv))
         except api.ParserError:
             rout = ('PErr',)
@@ -312,6 +315,8 @@ def equal_scope_cases(res):
 def work(task):
     res = runner.Result()
     opwrap.install()
+    # a host with a generous recursion limit: language recursion 260 deep completes (the tracer adds frames per node), 900 deep does not
+    sys.setrecursionlimit(4000)
     if task[0] == 'equal-scope':
         equal_scope_cases(res)
         return res
